@@ -169,6 +169,8 @@ def run(ctx):
     char_byte_units(ctx, "R16-f")
     config_valued_panics(ctx, "R16-g")
     path_parent_unwraps(ctx, "R16-h")
+    parsed_integers_not_unwrapped(ctx, "R16-j")
+    token_loops_make_progress(ctx, "R16-k")
     import c03
     c03.offset_base_agreement(ctx, "R16-i")
 
@@ -568,3 +570,78 @@ def path_parent_unwraps(ctx, rid):
                         r.violation(rid, key, "Path::parent() of a user-supplied path is unwrapped without having excluded a directory: "
                                               "a root path makes the tool panic", [u.loc()])
     r.floor(rid, n, 1, "parent().unwrap() sites in the tools")
+
+
+def parsed_integers_not_unwrapped(ctx, rid):
+    """R16-j: a digit run taken from the source is never assumed to fit an integer type"""
+    p, r = ctx.p, ctx.r
+    r.rule(rid, "outside the configuration module (whose `key=value` strings are validated by is_valid_key_val before "
+                "override_value parses them), the Result of str::parse::<integer> is never consumed by unwrap / expect / "
+                "unwrap_unchecked: digit runs in identifiers, literals and reports are unbounded, so the parse can fail with "
+                "PosOverflow on valid input")
+    INTS = {"usize", "u8", "u16", "u32", "u64", "u128", "isize", "i8", "i16", "i32", "i64", "i128"}
+    n = 0
+    for f in p.by_crate["rustfmt_nightly"]:
+        if "::config::" in f.id:
+            continue
+        for c in f.calls():
+            if not c.name.endswith("str>::parse") or not c.ga or c.ga[0] not in INTS:
+                continue
+            n += 1
+            users = [x for x in f.calls() if x.args and x.args[0][0] != "k" and not x.args[0][1][1] and x.args[0][1][0] == c.dest[0]]
+            bad = [u for u in users if u.name.rsplit("::", 1)[-1] in ("unwrap", "expect", "unwrap_unchecked", "unwrap_or_default") and "Result" in u.name
+                   and u.name.rsplit("::", 1)[-1] != "unwrap_or_default"]
+            key = "%s: parse::<%s>" % (short(f.id), c.ga[0])
+            r.instance(rid, key, "violation" if bad else "ok", c.loc())
+            for u in bad:
+                r.violation(rid, "%s: parsed integer unwrapped" % short(f.id),
+                            "str::parse::<%s>() is followed by %s: a run of digits that does not fit (e.g. a 20-digit suffix in an "
+                            "identifier being version-sorted) makes rustfmt panic" % (c.ga[0], u.name.rsplit("::", 1)[-1]), [u.loc()])
+    r.floor(rid, n, 2, "str::parse::<integer> sites outside config")
+
+
+def token_loops_make_progress(ctx, rid):
+    """R16-k: every iteration of a hand-written token loop consumes a token or leaves the loop"""
+    from common import natural_loops
+    from absint import explore, vkey, variant_name, TooManyPaths
+    p, r = ctx.p, ctx.r
+    r.rule(rid, "parse::macros::{cfg_if, cfg_match}: on every path from a loop header back to the same header the parser has "
+                "advanced — parse_item answered Ok(Some(_)), an eat / eat_keyword answered true, or bump was called; an iteration "
+                "that goes round on `Ok(None)` (nothing parsed, nothing consumed) never terminates")
+    n = 0
+    for name in ("parse_cfg_if_inner", "parse_cfg_match_inner"):
+        f = p.named(name)
+        if f is None:
+            r.undecidable(rid, "%s not found" % name)
+            continue
+        for h, body in natural_loops(f):
+            try:
+                paths = explore(f, start=h, pure=lambda c: True, max_paths=20000)
+            except TooManyPaths as e:
+                r.undecidable(rid, str(e))
+                continue
+            r.paths(rid, len(paths))
+            for path in paths:
+                if path.end != "loop" or path.end_bb != h:
+                    continue
+                if not all(b in body for b in path.blocks):
+                    continue          # left the loop and came back through an outer one: judged at that header
+                n += 1
+                progress = False
+                for k, v in path.decisions:
+                    vn = variant_name(v)
+                    if "parse_item(" in k and vn == "Some":
+                        progress = True
+                    if ("::eat(" in k or "::eat_keyword(" in k or "::eat#" in k and "ExpTokenPair" in k or "ExpKeywordPair" in k) and v is True:
+                        progress = True
+                if any("::bump(" in k for k, v in path.decisions):
+                    progress = True
+                key = "%s: loop at bb%d goes round without consuming a token" % (name, h)
+                r.instance(rid, "%s loop iteration %s" % (name, "advances" if progress else "does not advance"), "ok" if progress else "violation",
+                           "%s:%d" % (f.file, f.line))
+                if not progress:
+                    r.violation(rid, "%s: an iteration goes round without consuming a token" % name,
+                                "a path from the loop header back to it takes only these decisions: %s — the parser state is "
+                                "unchanged, so the loop never ends (rustfmt hangs on a stray `;` inside the macro's braces)"
+                                % [(k[-40:], variant_name(v)) for k, v in path.decisions][-3:], ["%s:%d" % (f.file, f.line)])
+    r.floor(rid, n, 4, "loop iterations of the cfg_if / cfg_match parsers")
